@@ -93,7 +93,7 @@ func parseWebpSimple(r binary.Reader, md *meta.Data, chunkLen uint32) error {
 		return errors.New("corrupted WebP VP8 frame")
 	}
 	md.PixelWidth = uint32(b[4]&((1<<6)-1))<<8 | uint32(b[3])
-	md.PixelWidth = uint32(b[6]&((1<<6)-1))<<8 | uint32(b[5])
+	md.PixelHeight = uint32(b[6]&((1<<6)-1))<<8 | uint32(b[5])
 	md.BitsPerComponent = bitsPerComponent
 	return nil
 }
